@@ -21,7 +21,29 @@ SKIPPED = (RAISE_ATTR, NO_METHOD)        # provider cannot serve the method: ski
 NET_TEST = Network('bitcoinlib_test')               # fee_default 10000, fee_min 1000, fee_max 1000000
 NET_BTC = Network('bitcoin')                        # fee_default None
 
-OUT = {}        # provider url -> outcome
+class Lazy:
+    """A solver-chosen small int that is turned into the equal concrete int the first time somebody looks at it (one
+    case split per value instead of one solver round trip per later comparison; a value nobody looks at - the outcome
+    of a provider that is never consulted - costs nothing)."""
+    def __init__(self, v, lo, hi, amap=None):
+        self.v, self.lo, self.hi, self.amap, self.c = v, lo, hi, amap, None
+
+    def get(self):
+        if self.c is None:
+            c = conc(self.v, self.lo, self.hi)
+            self.c = c if self.amap is None else self.amap[c]
+        return self.c
+
+
+def conc(v, lo, hi):
+    """the concrete int in [lo, hi] equal to v (pre: lo <= v <= hi)"""
+    for c in range(lo, hi):
+        if v == c:
+            return c
+    return hi
+
+
+OUT = {}        # provider url -> Lazy outcome
 ANS = {}        # provider url -> callable(method, args) -> answer
 CALLS = []      # (url, method, args) in call order
 
@@ -41,7 +63,7 @@ class FakeClient:
         self.name = url
         # decided here (the client is constructed when, and only when, the provider is consulted): CrossHair evaluates
         # hasattr() outside its tracer, so __getattr__ must not compare symbolic values
-        self.nomethod = True if OUT[url] == NO_METHOD else False
+        self.nomethod = OUT[url].get() == NO_METHOD
 
     def __getattr__(self, method):
         if method not in METHODS or self.nomethod:
@@ -50,7 +72,7 @@ class FakeClient:
 
     def _do(self, method, args):
         CALLS.append((self.name, method, args))
-        o = OUT[self.name]
+        o = OUT[self.name].get()
         if o == ANSWER:
             return ANS[self.name](method, args)
         if o == RAISE_SVC:
@@ -108,15 +130,17 @@ class Rnd:
 
 
 _saved = []
+_NULLLOG = NullLog()
+_RND = Rnd()
 
 
 def install():
     """module-global stubbing; undone by restore() in the finally block of every condition"""
     _saved.append((SV._logger, SV.datetime, SV.random, SV.time, BC._logger, getattr(SP, 'c20fake', None)))
-    SV._logger = NullLog()
-    BC._logger = NullLog()
+    SV._logger = _NULLLOG
+    BC._logger = _NULLLOG
     SV.datetime = FakeDT
-    SV.random = Rnd()
+    SV.random = _RND
     SV.time = FakeTime
     SP.c20fake = FakeMod
     OUT.clear()
@@ -145,7 +169,8 @@ def url(i):
 
 def make_service(outs, prios, max_errors, max_providers, min_providers=1, network=NET_TEST, cache=None,
                  ignore_priority=False, need_key=()):
-    """a Service object as __init__ would leave it, with len(outs) fake providers; providers whose index is in
+    """a Service object as __init__ would leave it, with len(outs) fake providers (outs: list of Lazy, prios: list of
+    concrete or symbolic ints); providers whose index is in
     need_key are configured with the placeholder api key 'api-key-needed'"""
     k = len(outs)
     for i in range(k):
@@ -179,37 +204,41 @@ def make_service(outs, prios, max_errors, max_providers, min_providers=1, networ
 
 
 # ---- specification of the fail-over loop (written from the documented behaviour, independent of the code) ----------
-# Providers are asked in descending priority.  A provider that cannot serve the method (SKIPPED) is passed over.  A
-# provider that raises or answers empty (FAILING) is an error.  MUST_OK: the first answering provider is preceded by
-# fewer than max_errors errors -> the call must return exactly that provider's answer.  MUST_FAIL: nobody answers, or
-# max_errors *raising* providers precede the first answer -> the call must fail (ServiceError or False).  In between
-# (the limit is reached only by counting empty answers) the property allows either, but a success must still be the
-# first answering provider's answer: MAY.
-MUST_OK, MUST_FAIL, MAY = 1, 2, 3
+# Providers are asked in descending priority.  A provider that cannot serve the method (SKIPPED, or no api key) is
+# passed over.  A provider that raises or answers empty (FAILING) is an error.
+#   MUST_OK     the first answering provider is preceded by fewer than max_errors errors: the call must return exactly
+#               that provider's answer
+#   FAIL_LIMIT  nobody answers before max_errors raising providers have been met, or nobody answers at all and at least
+#               max_errors providers failed: the call must fail ("error limit reached")
+#   FAIL_NONE   nobody answers, fewer than max_errors providers failed: the call must fail
+#   MAY         the first answer is preceded by >= max_errors errors, but the limit is reached only by counting empty
+#               answers: the property allows failure or success - a success must still be the first answering
+#               provider's answer
+# "fail" = ServiceError, or the documented False of _provider_execute.
+MUST_OK, FAIL_LIMIT, FAIL_NONE, MAY = 1, 2, 3, 4
+MUST_FAIL = (FAIL_LIMIT, FAIL_NONE)
 
 
 def spec_failover(outs, order, max_errors, need_key=()):
-    """-> (verdict, index of the first answering provider in `order` or None).  Reads outs[] in consult order and only
-    as far as needed."""
+    """-> (verdict, index of the first answering provider in `order` or None).  outs: list of Lazy, read in consult
+    order and only as far as needed."""
     errors = 0
     raising = 0
     for i in order:
         if i in need_key:
             continue
-        o = outs[i]
+        o = outs[i].get()
         if o == ANSWER:
             if errors < max_errors:
                 return MUST_OK, i
-            if raising >= max_errors:
-                return MUST_FAIL, i
             return MAY, i
         if o in FAILING:
             errors += 1
             if o != EMPTY:
                 raising += 1
                 if raising >= max_errors:
-                    return MUST_FAIL, None
-    return MUST_FAIL, None
+                    return FAIL_LIMIT, None
+    return (FAIL_LIMIT if errors >= max_errors else FAIL_NONE), None
 
 
 class Addr:
